@@ -527,6 +527,101 @@ def _two_owner(rng, d: dict, i: int) -> Case:
     return Case(_line2(d, n_obj, f, a, b, init, ops), tags, "random")
 
 
+def _ctor_history(rng, i: int) -> Case:
+    """writes whose inference reaches the written instance's OWN fields: instances constructed mid-history with
+    keyword arguments for several managed fields at once (the dataclass `__init__` assigns them in declaration order:
+    a sub-property field declared before its super-property's collection field infers into a field `__init__` has not
+    assigned yet, and the assignment that follows finds the container inference created); a collection assigned as the
+    FIRST access to a field after such a construction (nothing has read the field); collections assigned to
+    transitive fields whose elements already have outgoing relations of that property (the hierarchy built top-down:
+    inference writes into the very field being populated). Schemas U (the repository's classes), D (diamond,
+    transitive, inverse), L. The history never assigns to a field that holds an asserted element (that is the open
+    C15 finding F-C15-3). Compared: relation triples + contents of every managed field, as sets, against the
+    closure of the asserted relations (= what appending the elements one by one gives)."""
+    tag = rng.choice(["U", "D", "D", "L"])
+    d = _desc(tag)
+    kinds, targets, order = d["kinds"], d["targets"], d["decl_order"]
+    plain = [c for c in range(d["nclasses"]) if c not in set(d["role_cls"])]
+    n_obj = rng.randint(3, 6)
+    cls_of = [rng.choice(plain) for _ in range(n_obj)]
+    late = sorted(rng.sample(range(n_obj), rng.randint(1, 2)))
+    if tag == "U":
+        # the repository's classes are eq-dataclasses: while an instance is being constructed, inference that compares
+        # it (`value in container`) with another instance of ITS class reads fields `__init__` has not assigned yet and
+        # raises AttributeError (candidate finding F-C16-10, see notes/build_reports/C16_table.md). Constructor cases
+        # on U stay outside that: the constructed instance is the only one of its class.
+        late = late[:1]
+        other = [c for c in plain if c != cls_of[late[0]]]
+        cls_of = [cls_of[o] if o in late else rng.choice(other) for o in range(n_obj)]
+    exists = [o for o in range(n_obj) if o not in late]
+    has_asserted, set_done = set(), set()
+    ops: List[str] = []
+    shapes = set()
+
+    def cands(f, among):
+        return [t for t in among if cls_of[t] in targets[f]]
+
+    def value(f, o, among):
+        """a value for field f of o (None when there is no admissible target yet)"""
+        ts = cands(f, among)
+        if not ts:
+            return None
+        if kinds[f] == "single":
+            return rng.choice(ts)
+        xs = [rng.choice(ts) for _ in range(rng.randint(1, 3))]
+        return list(dict.fromkeys(xs)) if kinds[f] == "set" else xs
+
+    def write(o):
+        fs = order[cls_of[o]]
+        if not fs:
+            return
+        f = rng.choice(fs)
+        v = value(f, o, exists)
+        if v is None:
+            return
+        if kinds[f] == "single":
+            if (f, o) in set_done:
+                return
+            set_done.add((f, o))
+            ops.append(f"(set {f} {o} {v})")
+        elif (f, o) not in has_asserted and rng.random() < 0.65:
+            ops.append(f"(assign {f} {o} {' '.join(map(str, v))})")
+            has_asserted.add((f, o))
+            shapes.add("assign")
+        else:
+            ops.append(f"(add {f} {o} {v[0]})")
+            has_asserted.add((f, o))
+
+    for _ in range(rng.randint(0, 4)):
+        if exists:
+            write(rng.choice(exists))
+    for o in late:
+        items = []
+        given = 0
+        for f in order[cls_of[o]]:
+            v = value(f, o, exists) if rng.random() < 0.55 else None
+            if v is None:
+                items.append(f"(default {f})")
+            elif kinds[f] == "single":
+                items.append(f"(set {f} {v})")
+                set_done.add((f, o))
+                given += 1
+            else:
+                items.append(f"(assign {f} {' '.join(map(str, v))})")
+                has_asserted.add((f, o))
+                given += 1
+        ops.append(f"(ctor {o} {' '.join(items)})")
+        shapes.add(f"ctor-{min(given, 3)}-kwargs")
+        exists.append(o)
+        for _ in range(rng.randint(0, 3)):
+            write(o if rng.random() < 0.7 else rng.choice(exists))
+    for _ in range(rng.randint(0, 3)):
+        write(rng.choice(exists))
+    objs = " ".join(f"({c} -)" for c in cls_of)
+    line = f"(hc {d['sexp']} (objs {objs}) (ops {' '.join(ops)}))"
+    return Case(line, ("constructed-and-coupled", "schema-" + tag) + tuple(sorted(shapes)), "random")
+
+
 def witness_lines() -> Dict[str, str]:
     d = _desc()
     return {
@@ -565,10 +660,25 @@ def generate(rng, tier, n):
         cases.append(_falsy(rng, i))
     for i in range(max(40, n // 8)):
         cases.append(_reassign(rng, i))
+    for i in range(max(120, n // 3)):
+        cases.append(_ctor_history(rng, i))
     return cases
 
 
+def compare(impl: str, other: str) -> bool:
+    """string equality, except for the `hc` family (relations + every field, C15's observation): a single-valued
+    field must hold one of the derivable targets"""
+    if impl == other:
+        return True
+    if impl.startswith("R[") and "|F[" in impl:
+        from props import c15
+        return c15.compare(impl, other)
+    return False
+
+
 def nontrivial(case: Case, spec: str) -> bool:
+    if case.line.startswith("(hc "):
+        return not spec.startswith("R[]")
     if case.line.startswith("(w2 "):
         m2 = re.match(r"A\[([^\]]*)\]\|B\[([^\]]*)\]", spec)
         return bool(m2 and m2.group(2) not in ("", "-"))
@@ -599,6 +709,21 @@ def _shrink2(case: Case):
 
 
 def shrink(case: Case):
+    if case.line.startswith("(hc "):
+        m = re.search(r"\(ops (.*)\)\)$", case.line)
+        if not m:
+            return
+        from props._pd import parse_sexp
+
+        def ren(x):
+            return x if isinstance(x, str) else "(" + " ".join(ren(y) for y in x) + ")"
+
+        ops = parse_sexp("(" + m.group(1) + ")")
+        for i in range(len(ops)):
+            if ops[i][0] != "ctor" and len(ops) > 1:      # taking a write away never makes a history ill-formed
+                yield Case(f"{case.line[: m.start()]}(ops {' '.join(ren(o) for o in ops[:i] + ops[i + 1:])}))",
+                           case.tags, "shrink")
+        return
     if case.line.startswith("(w2 "):
         yield from _shrink2(case)
         return
@@ -623,7 +748,7 @@ def shrink(case: Case):
 def revive(case: Case) -> Case:
     """stored lines (corpus, finding witnesses, replays) carry the numeric encoding of the declared semantics as it
     was when they were written; re-read it from the real classes so that only the history is replayed"""
-    m = re.match(r"^\((h|w2|w) \(schema (\w)\) .*? \(objs ", case.line)
+    m = re.match(r"^\((hc|h|w2|w) \(schema (\w)\) .*? \(objs ", case.line)
     if not m:
         return case
     try:
